@@ -260,9 +260,10 @@ func runC19(c *Ctx) {
 		}
 		// resetDecode
 		good := false
-		for _, cc := range callsToFn(resetDecode, consume) {
-			if loadOfField(cc.Common().Args[1], decodeBytesF) {
-				for _, l := range guardsOf(cc.(ssa.Instruction).Block()) {
+		for _, dc := range deepCallsTo(resetDecode, consume) {
+			if loadOfField(dc.Call.Call.Args[1], decodeBytesF) {
+				// the guard sits where the Consume is (in resetDecode, or in the helper that holds the pending payload)
+				for _, l := range guardsOf(dc.Call.Block()) {
 					if loadOfField(l.Cond, decodeResetF) && l.Pos {
 						good = true
 					}
